@@ -67,7 +67,7 @@ class C13(Prop):
                   "pages/tool sources, tied by exact stdout comparison only on the generated valid-input distribution; printf rounding modelled by exact "
                   "rational round-half-even (L0), binary64/binary32 arithmetic of the tools mirrored operation by operation (no theorem about rounded values); "
                   "the crash/hang half is support, not proof: a tool death outside the explored inputs is not excluded. "
-                  "Tools with no reference function (esl-ssdraw, -alimap, -construct, -histplot, -mixdchlet) are covered by the search only; esl-alimerge --small/--rfonly and inputs with '~' columns or annotation "
+                  "Tools with no reference function (esl-ssdraw, -alimap, -construct, -histplot, -mixdchlet) are covered by the search only; esl-alimerge --small and inputs with '~' columns or annotation "
                   "beyond names/rows/RF likewise; esl-reformat --id_map by a python monitor. The --small modes are modelled line by line (Miniapps/Small.lean) and compared exactly; esl-alistat --small is predicted from the exact residue count "
                   "(the tool sums fractional per-column counts in binary64 and rounds to nearest since edf1c28). esl-shuffle -w follows the roll range regenerated from esl_randomseq.c (Shuffle/WinParams.lean, shared with C18). "
                   "Round 6: five repairs of defects found through this check landed in /repo (esl-alistat --small nres truncation edf1c28; directory as input file 5d94071; RegurgitatePfam #=GS lookup before parse 682375e; "
@@ -88,8 +88,8 @@ class C13(Prop):
                    "esl-alimask (-t, -g, -p with --pfract/--pthresh/--pavg/--ppcons/--pallgapok, -g -p, --rf-is-mask, mask file, --keepins, --fmask/--gmask/--pmask files), "
                    "esl-alimanip (selection/removal/numbering options), esl-compstruct (-m -p), esl-compalign (default, -c), esl-alipid / esl-alirev / esl-weight on multi-alignment Stockholm/Pfam files, "
                    "the --small modes of esl-reformat (pfam->afa, pfam->pfam with every residue option), esl-alimask (-t, mask file, --rf-is-mask), esl-alimanip (--seq-k/--seq-r, several records), esl-alistat (default, -1), "
-                   "esl-alimerge (two files or --list, --outformat; names/rows/RF alignments)",
-                   "alphabet guessing, the non-FASTA sequence formats as input, esl-alimask --small -g/-p, esl-alistat --small info files, esl-alimerge --small/--rfonly, "
+                   "esl-alimerge (two files or --list, --outformat, --rfonly; names/rows/RF alignments)",
+                   "alphabet guessing, the non-FASTA sequence formats as input, esl-alimask --small -g/-p, esl-alistat --small info files, esl-alimerge --small, "
                    "esl-reformat --id_map/hmmpgmd, esl-compalign -p, esl-construct, esl-alimap, esl-ssdraw, esl-histplot, esl-mixdchlet are not modelled "
                    "(python monitors for some, the search for all)",
                    "process and file-system behaviour of the tools, libc printf, and the python runner are trusted; a NaN the tools print is `0.0/0.0` on x86-64 (`-nan`)",
